@@ -11,11 +11,11 @@ use vharness::privx::{bump, dig};
 use vharness::wrapref::*;
 
 /// inner archetype index vector: [bh(4), asset(2), fee(2), number(2), slots(2), nulls(2), padding(2)]
-const SIZES: [usize; 7] = [5, 2, 2, 2, 2, 2, 2];
+const SIZES: [usize; 7] = [8, 2, 2, 2, 2, 2, 2];
 
 fn inner(ix: &[usize], n: usize, salt: u64) -> Inner {
     let b1 = dig(1);
-    let bhs = [Z4, b1, dig(2), bump(b1, 3), vharness::privx::shift(b1)];
+    let bhs = [Z4, b1, dig(2), bump(b1, 3), vharness::privx::shift(b1), bump(b1, 0), bump(b1, 1), bump(b1, 2)];
     let mut pis = vec![2 * n as u64, [0u64, 1][ix[1]], [0u64, 7][ix[2]]];
     pis.extend_from_slice(&bhs[ix[0]]);
     pis.push([3u64, 4][ix[3]]);
